@@ -521,3 +521,31 @@ def r12g(ctx, rep, rule="R12g"):
                                      else "run_count can return Ok(None) without calling run_gc: with budgets below the "
                                      "collection period no collection ever runs during a sliced evaluation and the heap "
                                      "grows with the work done", [fn.span])
+
+
+def r07e(ctx, rep, rule="R07e"):
+    facts = ctx["facts"]
+    rep.rule(rule, "a failing read or compilation reports no stale trace: in Vm::eval_text and Vm::prepare_eval an assignment "
+             "of None to last_stacktrace dominates the first fallible step (parse_text / compile_runnable); otherwise an error "
+             "that never reaches run_count is reported together with the previous failure's stack trace.")
+    for path, first in (("marwood::vm::Vm::eval_text", "marwood::parse::parse_text"),
+                        ("marwood::vm::Vm::prepare_eval", COMPILE + "compile_runnable")):
+        fn = need(rep, rule, facts, path)
+        if fn is None:
+            continue
+        clears = []
+        for bb, j, s in fn.stmts():
+            l = s["lhs"]
+            if l["l"] == 1 and [e["n"] for e in l["p"] if isinstance(e, dict) and "f" in e] == ["last_stacktrace"]:
+                o = fn.origin(s["rv"].get("a")) if s["rv"]["k"] == "use" else None
+                if o and o[0] == "rv" and o[1]["rv"].get("variant") == "None":
+                    clears.append(bb)
+        firsts = [bb for bb, t in fn.calls() if callee(t) == first]
+        if not firsts:
+            rep.anchor_lost(rule, "%s call in %s" % (short_path(first), short_path(path)))
+            continue
+        ok = bool(clears) and all(any(fn.dominates(c, b) for c in clears) for b in firsts)
+        (rep.ok if ok else rep.fail)(rule, "%s|%s" % (rule, path.rsplit("::", 1)[-1]),
+                                     "%s clears last_stacktrace before %s" % (short_path(path), short_path(first)) if ok else
+                                     "%s can fail in %s without having cleared last_stacktrace: the caller sees the previous "
+                                     "failure's trace next to the new error" % (short_path(path), short_path(first)), [fn.span])
